@@ -346,6 +346,12 @@ def _dirmodes(res, chunk):
             for i, b in enumerate(bad_files[:k]):
                 with open(os.path.join(d, 'in', 'bad%d' % i), 'wb') as f:
                     f.write(b)
+            # two more decodable logs behind the rejected ones; the text of the first survives loading only as an escape (an
+            # unpaired surrogate: one corrupted byte of a surrogate pair), so a failure to print it would come late
+            for name, payload in (('late_surrogate', b'{"a": "\\ud83d\\u0e00", "b": "Z\xc3\xbcrich"}'), ('later_plain', b'{"k": 1}')):
+                with open(os.path.join(d, 'in', name), 'wb') as f:
+                    f.write(pelgen.encode_pel(pelgen.pel_from_spec({'eid': 0x500001F0 + len(name), 'plid': 0x500001F0 + len(name), 'sections': [
+                        {'t': 'PS'}, {'t': 'UD', 'comp': 0x2000, 'sub': 1, 'payload': payload.hex()}]})))
             for mode in (['-l'], ['-a'], ['-n'], ['--plid', '500001FF'], ['--src', 'BD8D'], ['-j', '-o', os.path.join(d, 'out')], ['-j'],
                          ['-a', '-x'], ['-l', '-x']):
                 case = {'dirmodes': True, 'base': chunk['base'], 'opt': opt, 'bad': k, 'mode': [m if not m.startswith('/') else '<out>' for m in mode]}
@@ -361,6 +367,25 @@ def _dirmodes(res, chunk):
                     res.violation('C05:cli-exit', '%s with %d malformed file(s): exit status %s' % (' '.join(case['mode']), k, rc), case)
                 if 'Traceback (most recent call last)' in se:
                     res.violation('C05:cli-traceback', '%s with %d malformed file(s): traceback on stderr' % (' '.join(case['mode']), k), case)
+                # whatever is shown or written for the logs that do decode is a JSON document
+                from mc import strictjson
+                if mode[0] in ('-l', '-a', '-n', '--plid', '--src') and '-x' not in mode and so.strip():
+                    try:
+                        strictjson.loads(so)
+                    except Exception as e:
+                        res.violation('C05:cli-not-json', '%s with %d malformed file(s): standard output is not a JSON document (%s)' % (
+                            ' '.join(case['mode']), k, e), case)
+                if mode[0] == '-j':
+                    od = os.path.join(d, 'out') if '-o' in mode else os.path.join(d, 'in')
+                    for fn in sorted(os.listdir(od)):
+                        if fn.endswith('.json'):
+                            try:
+                                with open(os.path.join(od, fn), encoding='utf-8', errors='surrogateescape') as fh:
+                                    strictjson.loads(fh.read())
+                            except Exception as e:
+                                res.violation('C05:cli-not-json', '%s with %d malformed file(s): %s is not a JSON document (%s)' % (
+                                    ' '.join(case['mode']), k, fn.split('.', 1)[0] + '.<id>.json', e), case)
+                            os.unlink(os.path.join(od, fn))
 
 
 def _subproc(res, chunk):
